@@ -256,7 +256,7 @@ WINDOWS = {
     r"(?s).*ab": [("\n", "b"), ("x\ny a", "")],
     r".+co.+": [("co", ""), ("", "co"), ("c", "a")],
     r".*co[0-9]+": [("xco1 ", ""), ("co1 ", "2"), ("", "o1")],
-    r"[a-z]+(\d)*x\.tx": [("a", ".tx"), ("a1", "x.tx")],
+    r"[a-z]+(\d)*x\.tx": [("a", ".tx")],
     r"\b(?:foo|bar)[0-9]{4}[a-z]{4}": [(" xbar1234abcd ", "1234abcd"), ("xfoo1234abcd-", "1234abcd"), ("foo1234abcd bar1234abcd ", "")],
     r"abc|abd|xyz\d": [("xyz", ""), ("ab", ""), ("xy", "1")],
     r"foo[a-z]{40}x": [("foo" + "a" * 39, "x"), ("foo" + "a" * 37, "ax")],
